@@ -263,7 +263,11 @@ pub async fn exec_c01(script: Value) -> ExecResult {
                     }
                     // root-cause signatures of two recorded defects (see known_findings.jsonl); anything else is a violation
                     let (b2, a2, admin_changed) = strip_admin(&before, &after);
-                    let replay_sig = !paced && b2 != a2 && only_sequences_advanced(&b2, &a2);
+                    // in a paced run the only apply that can be in flight during a compaction is the entry that triggered
+                    // it; the defect then needs that entry to lie *behind* the snapshot header (snapshot index < last log
+                    // index at the stop). A restart right after a compaction that covers the whole log replays nothing:
+                    // there the signature is never tolerated
+                    let replay_sig = (!paced || compactions < last_log) && b2 != a2 && only_sequences_advanced(&b2, &a2);
                     if before != after && (b2 == a2 || replay_sig) {
                         if admin_changed {
                             sim::count("probe.default_admin_recreated_during_startup_load", 1);
@@ -740,6 +744,105 @@ fn majority_leader() -> Option<u64> {
     votes.into_iter().max_by_key(|(_, c)| *c).map(|(l, _)| l)
 }
 
+/// Signature of the recorded async-raft-ext defect "an entry is skipped by the apply path": some node holds a
+/// ConfigSet entry at or below its applied index, yet the entry's (unique) content is neither the key's current
+/// value nor in the key's change history on that node.
+async fn skipped_apply_signature(finals: &[(u64, Obs)], contents: &[(String, String)]) -> Option<String> {
+    for (nid, o) in finals {
+        let n = match node(*nid) {
+            Some(n) => n,
+            None => continue,
+        };
+        let m = metrics(&n);
+        let es = match n.app.raft_store.get_log_entries(1, m.last_log_index + 1).await {
+            Ok(es) => es,
+            Err(_) => continue,
+        };
+        for (ks, c) in contents {
+            let needle = format!("\"{}\"", c);
+            if let Some(e) = es.iter().find(|e| e.index <= m.last_applied && crate::rig_l::payload_json(&e.payload).contains(&needle)) {
+                let hist = o.hist.get(ks).cloned().unwrap_or_default();
+                let cur = o.cfg.get(ks).cloned().flatten().map(|v| v.0);
+                if hist.len() < 100 && !hist.iter().any(|h| &h.1 == c) && cur.as_deref() != Some(c.as_str()) {
+                    return Some(format!("node {} holds the entry publishing {} to {} at log index {} (term {}), at or below its applied index {}, but neither serves it nor has it in the key's history", nid, c, ks.replace('\u{2}', "|"), e.index, e.term, m.last_applied));
+                }
+            }
+        }
+    }
+    None
+}
+
+/// Wider form of the same signature: a node's state is not what its own log yields. Folding the ConfigSet /
+/// ConfigRemove entries up to the node's applied index must give exactly the values it serves; if it does not, entries
+/// were skipped or applied twice by the apply path (last_applied moved by a new leader's blank entry). Also: a node
+/// whose last_applied lies beyond its own last log index.
+async fn log_state_mismatch(finals: &[(u64, Obs)], keys: &[(String, String)]) -> Option<String> {
+    use async_raft_ext::raft::EntryPayload;
+    use rnacos::raft::store::ClientRequest;
+    for (nid, o) in finals {
+        let n = match node(*nid) {
+            Some(n) => n,
+            None => continue,
+        };
+        let m = metrics(&n);
+        if m.last_applied > m.last_log_index {
+            return Some(format!("node {} reports last_applied {} beyond its last log index {} (a leader's blank entry moved last_applied past entries the node does not hold)", nid, m.last_applied, m.last_log_index));
+        }
+        let es = match n.app.raft_store.get_log_entries(1, m.last_log_index + 1).await {
+            Ok(es) => es,
+            Err(_) => continue,
+        };
+        if es.first().map(|e| e.index != 1).unwrap_or(true) {
+            continue;
+        }
+        let mut folded: BTreeMap<String, (Option<String>, u64)> = BTreeMap::new();
+        for e in es.iter().filter(|e| e.index <= m.last_applied) {
+            if let EntryPayload::Normal(nm) = &e.payload {
+                match &nm.data {
+                    ClientRequest::ConfigSet { key, value, .. } => {
+                        folded.insert(key.clone(), (Some(value.as_ref().clone()), e.index));
+                    }
+                    ClientRequest::ConfigRemove { key } => {
+                        folded.insert(key.clone(), (None, e.index));
+                    }
+                    _ => {}
+                }
+            }
+        }
+        for (raft_key, ks) in keys {
+            if let Some((want, idx)) = folded.get(raft_key) {
+                let cur = o.cfg.get(ks).cloned().flatten().map(|v| v.0);
+                if cur != *want {
+                    return Some(format!("node {} serves {:?} for {} but its own log, folded up to its applied index {}, yields {:?} (last entry for the key at index {}): an entry was skipped or applied out of order by the apply path", nid, cur, ks, m.last_applied, want, idx));
+                }
+            }
+        }
+    }
+    None
+}
+
+/// Signature of the recorded async-raft-ext defect "conflicting suffix never repaired": a follower still holds an entry
+/// of another term at an index where the leader has one.
+async fn conflict_signature() -> Option<String> {
+    let leader_id = majority_leader()?;
+    let ln = node(leader_id)?;
+    let lm = metrics(&ln);
+    let les = ln.app.raft_store.get_log_entries(1, lm.last_log_index + 1).await.ok()?;
+    let lterm: BTreeMap<u64, u64> = les.iter().map(|e| (e.index, e.term)).collect();
+    for n in live_nodes() {
+        if n.id == leader_id {
+            continue;
+        }
+        let m = metrics(&n);
+        if let Ok(es) = n.app.raft_store.get_log_entries(1, m.last_log_index + 1).await {
+            if let Some(e) = es.iter().find(|e| lterm.get(&e.index).map(|t| *t != e.term).unwrap_or(false)) {
+                return Some(format!("60 simulated s after all faults stopped node {} still holds entry {} of term {} where leader {} has an entry of term {} (its log ends at {}, the leader's at {}): the conflicting suffix is never truncated", n.id, e.index, e.term, leader_id, lterm.get(&e.index).unwrap(), m.last_log_index, lm.last_log_index));
+            }
+        }
+    }
+    None
+}
+
 pub async fn exec_c06(script: Value) -> ExecResult {
     use std::cell::RefCell;
     use std::rc::Rc as LRc;
@@ -913,9 +1016,14 @@ pub async fn exec_c06(script: Value) -> ExecResult {
             let _ = h.await;
         }
         let recs = recs.borrow().clone();
+        // (key, unique content) of every publish of the run, for the skipped-apply signature
+        let mut contents: Vec<(String, String)> = recs.iter().filter_map(|r| r.content.clone().map(|c| { let (t, g, d) = c06_key(r.key); (key_str(t, g, d), c) })).collect();
+        let mut key_table: Vec<(String, String)> = (0..4u8).map(|k| { let (t, g, d) = c06_key(k); (cfg_key(t, g, d).build_key(), key_str(t, g, d)) }).collect();
+        key_table.push((cfg_key(1, 1, 4).build_key(), key_str(1, 1, 4)));
         // (4) bounded liveness: a probe write succeeds and is readable everywhere within 30 simulated s
         let probe_deadline = tokio::time::Instant::now() + std::time::Duration::from_secs(60);
         let mut probe_ok = false;
+        let mut last_probe_err = String::new();
         let mut probe_content = String::new();
         let mut attempt = 0;
         while tokio::time::Instant::now() < probe_deadline {
@@ -924,13 +1032,41 @@ pub async fn exec_c06(script: Value) -> ExecResult {
             let via = &n[attempt % n.len()];
             probe_content = format!("probe{}", attempt);
             let req = rnacos::raft::cluster::model::SetConfigReq::new(cfg_key(1, 1, 4), Arc::new(probe_content.clone()));
-            if let Some(Ok(())) = within(10_000, via.app.config_route.set_config(req)).await {
-                probe_ok = true;
-                break;
+            match within(10_000, via.app.config_route.set_config(req)).await {
+                Some(Ok(())) => {
+                    probe_ok = true;
+                    break;
+                }
+                Some(Err(e)) => last_probe_err = format!("via node {}: {}", via.id, e),
+                None => last_probe_err = format!("via node {}: no answer within 10 s", via.id),
             }
             advance(2_000).await;
         }
-        vensure!(probe_ok, &format!("{}.liveness", id), "60 simulated s after all faults stopped (all nodes up, network healed) no node accepts a config write");
+        if !probe_ok {
+            if let Some(c) = conflict_signature().await {
+                vfail!(&format!("{}.conflicting_suffix_never_repaired", id), "{}; meanwhile no node accepts a config write [[{}]]", c, live_nodes().iter().map(|n| { let m = metrics(n); format!("n{}: {:?} term={} leader={:?} last_log={} applied={}", n.id, m.state, m.current_term, m.current_leader, m.last_log_index, m.last_applied) }).collect::<Vec<_>>().join("; "));
+            }
+        }
+        if !probe_ok {
+            let mut st = vec![];
+            for n in live_nodes() {
+                let m = metrics(&n);
+                let tail = n.app.raft_store.get_log_entries(m.last_log_index.saturating_sub(3).max(1), m.last_log_index + 1).await.map(|es| es.iter().map(|e| format!("{}:t{}", e.index, e.term)).collect::<Vec<_>>().join(",")).unwrap_or_default();
+                st.push(format!("n{}: {:?} term={} leader={:?} last_log={} applied={} members={:?}/{:?} tail=[{}]", n.id, m.state, m.current_term, m.current_leader, m.last_log_index, m.last_applied, m.membership_config.members, m.membership_config.members_after_consensus, tail));
+            }
+            // signature of the recorded skipped-apply defect of async-raft-ext: a node whose last_applied lies beyond its own
+            // last log index (the new leader's blank entry moved last_applied past entries the node does not hold)
+            let mut obs_now = vec![];
+            for n in live_nodes() {
+                if let Ok(o) = observe(&n, "liv").await {
+                    obs_now.push((n.id, o));
+                }
+            }
+            if let Some(sig) = log_state_mismatch(&obs_now, &key_table).await {
+                vfail!(&format!("{}.entry_skipped_at_leader_change", id), "{}; 60 simulated s after all faults stopped no node accepts a config write [[{}]]", sig, st.join("; "));
+            }
+            vfail!(&format!("{}.liveness", id), "60 simulated s after all faults stopped (all nodes up, network healed) no node accepts a config write [[{}]] last error: {}", st.join("; "), last_probe_err);
+        }
         // (3) convergence within 60 s
         let mut skipped_apply: Option<String> = None;
         let mut last_diff = String::new();
@@ -1009,6 +1145,13 @@ pub async fn exec_c06(script: Value) -> ExecResult {
             if same_logs && all_applied {
                 skipped_apply = Some(format!("all nodes hold the same {} log entries and report them applied, but serve different data: {}", full[0].len(), last_diff));
             }
+            if skipped_apply.is_none() {
+                contents.push((key_str(1, 1, 4), probe_content.clone()));
+                skipped_apply = skipped_apply_signature(&finals, &contents).await.map(|s| format!("{}; {}", s, last_diff));
+            }
+            if skipped_apply.is_none() {
+                skipped_apply = log_state_mismatch(&finals, &key_table).await.map(|s| format!("{}; {}", s, last_diff));
+            }
             let mut logs = vec![];
             for n in live_nodes() {
                 let last = metrics(&n).last_log_index;
@@ -1064,6 +1207,14 @@ pub async fn exec_c06(script: Value) -> ExecResult {
                             let pa = hist.iter().position(|h| Some(h) == a.content.as_ref());
                             let pb = hist.iter().position(|h| Some(h) == b.content.as_ref());
                             if let (Some(pa), Some(pb)) = (pa, pb) {
+                                if pa <= pb {
+                                    if let Some(sk) = skipped_apply_signature(&finals, &contents).await {
+                                        vfail!(&format!("{}.entry_skipped_at_leader_change", id), "{}", sk);
+                                    }
+                                    if let Some(sk) = log_state_mismatch(&finals, &key_table).await {
+                                        vfail!(&format!("{}.entry_skipped_at_leader_change", id), "{}", sk);
+                                    }
+                                }
                                 vensure!(pa > pb, &format!("{}.order", id), "key {}: publish {} returned before publish {} was invoked, but the committed history has them in the opposite order: {:?}", ks, a.content.clone().unwrap(), b.content.clone().unwrap(), hist);
                             }
                         }
@@ -1084,6 +1235,14 @@ pub async fn exec_c06(script: Value) -> ExecResult {
             }
             if !ops.iter().any(|o| o.ok == Some(true)) {
                 allowed.push(None);
+            }
+            if !allowed.contains(&cur) {
+                if let Some(sk) = skipped_apply_signature(&finals, &contents).await {
+                    vfail!(&format!("{}.entry_skipped_at_leader_change", id), "{}", sk);
+                }
+                if let Some(sk) = log_state_mismatch(&finals, &key_table).await {
+                    vfail!(&format!("{}.entry_skipped_at_leader_change", id), "{}", sk);
+                }
             }
             vensure!(allowed.contains(&cur), &format!("{}.final_value", id), "key {} finally holds {:?}, which is not the value of any operation that could be the last one (candidates {:?}; operations: {:?})", ks, cur, allowed, ops.iter().map(|o| (o.step, o.content.clone(), o.ok, o.invoke, o.ret)).collect::<Vec<_>>());
         }
@@ -1646,6 +1805,14 @@ pub async fn exec_c19(script: Value) -> ExecResult {
                 for b in recs.iter().filter(|r| r.key == key && r.node == a.node && r.range == a.range) {
                     if a.ret < b.invoke {
                         if let (Some(ma), Some(mb)) = (a.ids.iter().max(), b.ids.iter().min()) {
+                            if ma >= mb && sim::counter("fault.kill") > 0 {
+                                // same recorded defect as duplicates after a kill -9 restart: the range entry acknowledged
+                                // before its log write completed is lost, the sequence restarts below ids already handed out
+                                if findings.is_empty() {
+                                    findings.push(Violation::new(&format!("{}.duplicate_after_kill_restart", id), format!("sequence seq{} on node {}: a request that returned at event {} got ids up to {}, a later request (invoked at {}) got ids from {}; the run contains {} kill -9 restart(s) ({} issued-but-uncompleted file writes discarded)", key, a.node, a.ret, ma, b.invoke, mb, sim::counter("fault.kill"), sim::counter("disk.lost_on_crash"))));
+                                }
+                                return Ok(());
+                            }
                             vensure!(ma < mb, &format!("{}.went_backwards", id), "sequence seq{} on node {}: a request that returned at event {} got ids up to {}, a later request (invoked at {}) got ids from {}", key, a.node, a.ret, ma, b.invoke, mb);
                         }
                     }
